@@ -58,6 +58,57 @@ pub struct LineObs {
 }
 
 /// Drive one session on the real code. Results are walked immediately and released at the end.
+/// (answer, printed lines) of every line of a session on a retained compiler + machine; `threads`: each line runs on a
+/// freshly started thread
+pub fn session_answers(lines: &[Line], threads: bool) -> Vec<(String, Vec<String>)> {
+    fn one(compiler: &mut Compiler, vm: &mut VM, text: &str) -> (String, Vec<String>) {
+        verif::reset_all();
+        verif::set_capture(true);
+        verif::set_probes(false);
+        verif::set_shadow(ShadowMode::Off);
+        verif::set_budget(Some(RUNAWAY_BUDGET));
+        let res = catch_unwind(AssertUnwindSafe(|| nederlang::parser::parse(text).and_then(|ast| compiler.compile_ast(&ast)).and_then(|code| vm.run(code))));
+        let answer = match res {
+            Ok(Ok(obj)) => match catch_unwind(AssertUnwindSafe(|| obs::walk(obj))) {
+                Ok(v) => format!("value {}", render_val(&v)),
+                Err(_) => {
+                    let _ = obs::take_panic();
+                    "panic while reading the result".to_string()
+                }
+            },
+            Ok(Err(e)) => {
+                if verif::budget_exhausted() {
+                    "budget".to_string()
+                } else {
+                    format!("error {}", kind_of(&e).0.name())
+                }
+            }
+            Err(_) => {
+                let _ = obs::take_panic();
+                "panic".to_string()
+            }
+        };
+        (answer, verif::take_output())
+    }
+    let mut compiler = Compiler::new();
+    let mut vm = VM::new();
+    let mut out = vec![];
+    for l in lines {
+        let r = if threads {
+            let (c, v, t) = (&mut compiler, &mut vm, l.text.as_str());
+            std::thread::scope(|s| s.spawn(move || one(c, v, t)).join()).unwrap_or_else(|_| ("thread panicked".to_string(), vec![]))
+        } else {
+            one(&mut compiler, &mut vm, &l.text)
+        };
+        let fatal = r.0.starts_with("panic") || r.0 == "budget";
+        out.push(r);
+        if fatal {
+            break;
+        }
+    }
+    out
+}
+
 pub fn run_session_real(lines: &[Line], shadow: ShadowMode, probes: bool) -> (Vec<LineObs>, Vec<String>) {
     verif::reset_all();
     verif::set_capture(true);
@@ -274,7 +325,7 @@ impl C17 {
         };
         let n = ALPHABET.len() as u64;
         if ctx.flavour == Flavour::Miri {
-            return Families::new(vec![("directed", directed().len() as u64), ("len-1", n), ("len-2", 40), ("len-3", 40), ("cuts", 4), ("random", 40), ("valgrind-prompt", 0), ("prompt-binary", 0), ("prompt-on-a-terminal", 0), ("interrupt-at-the-prompt", 0), ("stdout-closes-early", 0)]);
+            return Families::new(vec![("directed", directed().len() as u64), ("len-1", n), ("len-2", 40), ("len-3", 40), ("cuts", 4), ("random", 40), ("valgrind-prompt", 0), ("prompt-binary", 0), ("prompt-on-a-terminal", 0), ("interrupt-at-the-prompt", 0), ("stdout-closes-early", 0), ("a-thread-per-line", 10)]);
         }
         let (l3, cuts) = match (ctx.flavour, ctx.tier) {
             (Flavour::Rel, Tier::Quick) => (n * n * n, 600),
@@ -283,7 +334,7 @@ impl C17 {
         };
         let vg = if ctx.flavour == Flavour::Rel { directed().len() as u64 + ctx.tier.pick(0, 200) } else { 0 };
         let pb = if ctx.flavour == Flavour::Rel { directed().len() as u64 + n + n * n + ctx.tier.pick(400, 20_000) } else { 0 };
-        Families::new(vec![("directed", directed().len() as u64), ("len-1", n), ("len-2", n * n), ("len-3", l3), ("cuts", cuts), ("random", rnd), ("valgrind-prompt", vg), ("prompt-binary", pb), ("prompt-on-a-terminal", if ctx.flavour == Flavour::Rel { directed().len() as u64 + ctx.tier.pick(120, 3_000) } else { 0 }), ("interrupt-at-the-prompt", if ctx.flavour == Flavour::Rel { ctx.tier.pick(60, 1_500) } else { 0 }), ("stdout-closes-early", if ctx.flavour == Flavour::Rel { ctx.tier.pick(120, 3_000) } else { 0 })])
+        Families::new(vec![("directed", directed().len() as u64), ("len-1", n), ("len-2", n * n), ("len-3", l3), ("cuts", cuts), ("random", rnd), ("valgrind-prompt", vg), ("prompt-binary", pb), ("prompt-on-a-terminal", if ctx.flavour == Flavour::Rel { directed().len() as u64 + ctx.tier.pick(120, 3_000) } else { 0 }), ("interrupt-at-the-prompt", if ctx.flavour == Flavour::Rel { ctx.tier.pick(60, 1_500) } else { 0 }), ("stdout-closes-early", if ctx.flavour == Flavour::Rel { ctx.tier.pick(120, 3_000) } else { 0 }), ("a-thread-per-line", match (ctx.flavour, ctx.tier) { (Flavour::Rel, Tier::Quick) => 1_500, (Flavour::Rel, Tier::Thorough) => 60_000, _ => 200 })])
     }
 
     fn alphabet_session(i: u64, len: usize) -> Vec<Line> {
@@ -328,6 +379,14 @@ impl C17 {
                 }
             }
             "valgrind-prompt" => {
+                let d = directed();
+                if (i as usize) < d.len() {
+                    d[i as usize].1.iter().map(|t| Line { text: t.to_string(), budget: None }).collect()
+                } else {
+                    random_session(&mut r).into_iter().map(|l| Line { text: l.text, budget: None }).collect()
+                }
+            }
+            "a-thread-per-line" => {
                 let d = directed();
                 if (i as usize) < d.len() {
                     d[i as usize].1.iter().map(|t| Line { text: t.to_string(), budget: None }).collect()
@@ -1305,6 +1364,25 @@ impl Check for C17 {
         }
         if fam == "prompt-on-a-terminal" {
             self.prompt_on_terminal(&lines, st);
+            return;
+        }
+        if fam == "a-thread-per-line" {
+            // the lines of one session one after the other, each on a thread of its own (compiler and machine are handed
+            // from thread to thread; nothing runs at the same time): the answers are those of the session on one thread
+            if lines.len() > 200 || lines.iter().any(|l| l.text.len() > 5_000) {
+                st.count("a-thread-per-line:skipped-big-session");
+                return;
+            }
+            let here = session_answers(&lines, false);
+            let there = session_answers(&lines, true);
+            st.evaluations += 2;
+            st.count("a-thread-per-line:sessions");
+            st.add("a-thread-per-line:lines", lines.len() as u64);
+            if let Some(k) = (0..here.len().min(there.len())).find(|&k| here[k] != there[k]) {
+                st.violation("a-thread-per-line:differs", format!("line {}: on one thread {:?}; with a thread per line {:?}", k + 1, here[k], there[k]), &session_text(&lines));
+            } else if here.len() != there.len() {
+                st.violation("a-thread-per-line:differs", format!("{} lines answered on one thread, {} with a thread per line", here.len(), there.len()), &session_text(&lines));
+            }
             return;
         }
         if fam == "interrupt-at-the-prompt" {
